@@ -9,7 +9,8 @@ from .common import MODEL, TYV, SplitMix, hexs, pipe, unhex
 from .verdict import Check
 
 PROP_FILE = "Properties/C12.v"
-THEOREMS = ["C12_symbolic_indentation", "C12_text_independent_of_unit", "C12_layout_line_is_multiple", "C12_sym_of_sound"]
+THEOREMS = ["C12_symbolic_indentation", "C12_text_independent_of_unit", "C12_layout_line_is_multiple", "C12_sym_of_sound",
+            "C12_wide_enough", "C12_real_renderer_scales"]
 UNITS = [1, 2, 3, 4, 8]
 WIDE = 1000000
 
@@ -67,8 +68,8 @@ def run(tier, seed, replay=None):
     ck.rule = ("fixtures, grammar-directed sources (G3) and layout perturbations (G2), well-formed only; each formatted with tab_spaces in "
                "{1,2,3,4,8} at width 10^6 (documents and raw rendering dumped through format_source_inspect); distinct = distinct source; "
                "non-trivial = the layout has at least one indented line")
-    ck.assumptions = ["'width large enough that no line needs wrapping' is taken as width 10^6 and CHECKED per case: the implementation's rendering must equal "
-                      "the model's wide renderer (K3-wide); the theorem is about the wide renderer",
+    ck.assumptions = ["'width large enough that no line needs wrapping' is width >= room d (C12_wide_enough: then pretty's renderer IS the wide renderer); the check "
+                      "formats at 10^6, evaluates the extracted `room` on every dumped document, and still compares the implementation's rendering with the wide renderer (K3-wide)",
                       "that the converter is parametric in the unit is not proved over the converter model; it is checked per case on the implementation's own "
                       "documents (K2-scale: instances of one symbolic document for the units 1,2,3,4,8)"]
     ck.trusted.append("modelled, not verified: the `pretty` renderer (restated; K3-wide compares it byte for byte on every case)")
@@ -107,6 +108,7 @@ def run(tier, seed, replay=None):
         return ck.finish()
     ck.extra["evaluation_s"] = round(time.time() - t0, 1)
     bad_scale, bad_wide, viol, f7_inst = [], [], [], 0
+    bad_room = []
     for (s, raws), m in zip(keep, mres):
         f = dict(x.split("=", 1) for x in m.split() if "=" in x)
         lines_field = f.get("lines", "")
@@ -114,6 +116,8 @@ def run(tier, seed, replay=None):
         ck.count(s, nontrivial)
         if f.get("sym") != "1" or f.get("align") != "1" or set(f.get("inst", "0")) != {"1"}:
             bad_scale.append((s, m[:80]))
+        if f.get("sym") == "1" and int(f.get("room", "0")) > WIDE:
+            bad_room.append((s, f.get("room")))
         if f.get("sym") == "1" and set(f.get("wide", "0")) != {"1"}:
             bad_wide.append((s, f.get("wide")))
         if f.get("sym") == "1":
@@ -139,6 +143,8 @@ def run(tier, seed, replay=None):
         ck.sample({"source": s[:150], "output_unit4_head": raws[4][:150]})
     ck.oblige("K2-scale: the documents for the units %s are instances of one symbolic document (sym_of, inst, align_ok) on %d cases" % (UNITS, len(keep)),
               not bad_scale, ("first: %r" % (bad_scale[0],))[:500] if bad_scale else "")
+    ck.oblige("hypothesis of C12_wide_enough: room d <= 10^6 (the width used) for every dumped document, on %d cases" % len(keep),
+              not bad_room, ("first: %r" % (bad_room[0],))[:300] if bad_room else "")
     ck.oblige("K3-wide: rendering at width 10^6 == the model's wide renderer on the dumped document, for every unit, on %d cases" % len(keep),
               not bad_wide, ("first: %r" % (bad_wide[0],))[:500] if bad_wide else "")
     # known finding F7: replay
